@@ -98,6 +98,10 @@ pub struct Case {
     pub data_len: u8,
     pub seed: u64,
     pub dev: Dev,
+    /// a conforming delivery from the same origin chain was executed just before (the service must not
+    /// remember anything from it that lets the studied delivery through)
+    #[serde(default)]
+    pub prior_delivery: bool,
 }
 
 fn dev() -> impl Strategy<Value = Dev> {
@@ -143,28 +147,32 @@ impl Property for C04 {
         "C04"
     }
     fn rule(&self) -> &'static str {
-        "proptest single cases: world = gateway + gas service + ITS (current-source token injected natively) with one ITS-deployed token, one registered canonical token with 500 in custody, an executable probe; a trusted-chain history of 0-6 set/remove operations over 3 chains; a conforming delivery (ReceiveFromHub wrapping a mint / a release / a transfer with data / a deploy with or without minter) and at most one deviation from the statement's list (never approved; approved with other payload / id / source address / destination; already executed; approval re-submitted after execution; source chain not the hub (another chain, or the hub's name in another letter case / with a trailing space); source address not the hub address; SendToHub wrapper; raw inner message; inner type 2; origin never trusted / removed again / removed between approval and execution / a trusted name in another letter case or with a trailing space; unknown token; undecodable recipient or minter (garbage, well-formed XDR of a string / number / bytes / vector, truncated address); amount 2^127; truncated / padded payload; any byte-level mutation - bit flip, dirty type word or padding, shifted offset, altered length - that leaves a non-canonical encoding). Oracle: effects (exact balance / custody / registry delta, gateway status executed, second delivery refused) iff no deviation; otherwise execute fails and the ledger snapshot is identical (approval still approved, not executed). non-trivial = a deviation is present, or the trust history contains a removal; distinct by Debug hash"
+        "proptest single cases: world = gateway + gas service + ITS (current-source token injected natively) with one ITS-deployed token, one registered canonical token with 500 in custody, an executable probe; a trusted-chain history of 0-6 set/remove operations over 3 chains; optionally a prior successful delivery from the same origin; then a conforming delivery (ReceiveFromHub wrapping a mint / a release / a transfer with data / a deploy with or without minter) and at most one deviation from the statement's list (never approved; approved with other payload / id / source address / destination; already executed; approval re-submitted after execution; source chain not the hub (another chain, or the hub's name in another letter case / with a trailing space); source address not the hub address; SendToHub wrapper; raw inner message; inner type 2; origin never trusted / removed again / removed between approval and execution / a trusted name in another letter case or with a trailing space; unknown token; undecodable recipient or minter (garbage, well-formed XDR of a string / number / bytes / vector, truncated address); amount 2^127 / 2^128+a / 2^192+a / 2^255+a; truncated / padded payload; any byte-level mutation - bit flip, dirty type word or padding, shifted offset, altered length - that leaves a non-canonical encoding). Oracle: effects (exact balance / custody / registry delta, gateway status executed, second delivery refused) iff no deviation; otherwise execute fails and the ledger snapshot is identical (approval still approved, not executed). non-trivial = a deviation is present, or the trust history contains a removal; distinct by Debug hash"
     }
     fn cases(&self, tier: Tier) -> u64 {
         tier.pick(15000, 200000)
     }
     fn strategy(&self, _tier: Tier) -> BoxedStrategy<Case> {
-        (proptest::collection::vec((any::<bool>(), 0u8..3), 0..7), 0u8..3, kind(), 1u16..400, 0u8..70, any::<u64>(), dev())
-            .prop_map(|(trust_history, origin, kind, amount, data_len, seed, dev)| Case { trust_history, origin, kind, amount, data_len, seed, dev })
+        (proptest::collection::vec((any::<bool>(), 0u8..3), 0..7), 0u8..3, kind(), 1u16..400, 0u8..70, any::<u64>(), dev(), prop_oneof![2 => Just(false), 1 => Just(true)])
+            .prop_map(|(trust_history, origin, kind, amount, data_len, seed, dev, prior_delivery)| Case { trust_history, origin, kind, amount, data_len, seed, dev, prior_delivery })
             .boxed()
     }
     fn fixed_cases(&self, _tier: Tier) -> Vec<Case> {
         let mut v = vec![];
         for k in [Kind::TransferNative, Kind::TransferCanonical, Kind::TransferWithData, Kind::Deploy { with_minter: true }, Kind::Deploy { with_minter: false }] {
-            v.push(Case { trust_history: vec![], origin: 0, kind: k, amount: 5, data_len: 4, seed: 1, dev: Dev::None });
+            v.push(Case { trust_history: vec![], origin: 0, kind: k, amount: 5, data_len: 4, seed: 1, dev: Dev::None , prior_delivery: false });
             for d in DEVS {
-                v.push(Case { trust_history: vec![], origin: 0, kind: k, amount: 5, data_len: 4, seed: 1, dev: d });
+                v.push(Case { trust_history: vec![], origin: 0, kind: k, amount: 5, data_len: 4, seed: 1, dev: d , prior_delivery: false });
+            }
+            for d in [Dev::OriginRemoved, Dev::OriginRemovedAfterApproval, Dev::NeverApproved, Dev::UnknownToken, Dev::SourceChainNotHub] {
+                v.push(Case { trust_history: vec![], origin: 0, kind: k, amount: 5, data_len: 4, seed: 1, dev: d, prior_delivery: true });
             }
             for seed in 0..6u64 {
-                v.push(Case { trust_history: vec![], origin: 0, kind: k, amount: 5, data_len: 4, seed, dev: Dev::BadRecipientOrMinter });
+                v.push(Case { trust_history: vec![], origin: 0, kind: k, amount: 5, data_len: 4, seed, dev: Dev::BadRecipientOrMinter, prior_delivery: false });
+                v.push(Case { trust_history: vec![], origin: 0, kind: k, amount: 5, data_len: 4, seed, dev: Dev::AmountTooLarge, prior_delivery: false });
             }
             for m in [super::c10::Mutation::DirtyHigh(0, 0), super::c10::Mutation::DirtyHigh(0, 23), super::c10::Mutation::DirtyTail(3), super::c10::Mutation::WordAdd(1, 32)] {
-                v.push(Case { trust_history: vec![], origin: 0, kind: k, amount: 5, data_len: 4, seed: 1, dev: Dev::Mutated(m) });
+                v.push(Case { trust_history: vec![], origin: 0, kind: k, amount: 5, data_len: 4, seed: 1, dev: Dev::Mutated(m) , prior_delivery: false });
             }
         }
         v
@@ -201,6 +209,18 @@ impl Property for C04 {
         }
         let origin_i = case.origin as usize % 3;
         let origin = CHAINS[origin_i];
+        if case.prior_delivery {
+            // an ordinary, successful delivery from the same origin first
+            if !trusted[origin_i] {
+                w.trust(origin);
+                trusted[origin_i] = true;
+            }
+            let prior = AMsg::Transfer { token_id: t1_id, source: vec![9, 9], dest: address_xdr(env, &w.users[1]), amount: word_u128(1), data: vec![] };
+            let p = ItsWorld::receive_payload(origin, &prior);
+            w.approve_for_its(HUB_CHAIN, "prior-1", HUB_ADDR, &p)?;
+            w.execute(HUB_CHAIN, "prior-1", HUB_ADDR, &p).map_err(|e| format!("setup: conforming prior delivery refused: {}", e))?;
+            cx.label("after_a_prior_delivery_from_the_same_origin");
+        }
         match case.dev {
             Dev::OriginNeverTrusted => {
                 // a chain that never appears in any history
@@ -275,7 +295,17 @@ impl Property for C04 {
             (AMsg::Deploy { .. }, Dev::UnknownToken) => applicable = false,
             (AMsg::Transfer { dest, .. }, Dev::BadRecipientOrMinter) => *dest = undecodable_address(env, &recipient, case.seed),
             (AMsg::Deploy { minter, .. }, Dev::BadRecipientOrMinter) => *minter = undecodable_address(env, &minter_addr, case.seed),
-            (AMsg::Transfer { amount, .. }, Dev::AmountTooLarge) => *amount = word_u128(1u128 << 127),
+            (AMsg::Transfer { amount: am, .. }, Dev::AmountTooLarge) => {
+                // 2^127, 2^128 + a, 2^192 + a, 2^255 + a: everything above 2^127 - 1 is out of range
+                let mut w = word_u128(amount as u128);
+                match case.seed % 4 {
+                    0 => w = word_u128(1u128 << 127),
+                    1 => w[15] |= 1,
+                    2 => w[7] |= 1,
+                    _ => w[0] |= 0x80,
+                }
+                *am = w;
+            }
             (AMsg::Deploy { .. }, Dev::AmountTooLarge) => applicable = false,
             _ => {}
         }
